@@ -820,13 +820,26 @@ pub fn c06(tier: &str, out: Option<&Path>) -> i32 {
         }
         counts.retain(|&n| n >= 1 && n <= top);
     }
+    // structural boundaries of the metadata arrays far above `top`: the tree array packs 16
+    // entries and the huge-entry tables 64 / (2 * TREE_HUGE) trees into one cache line, so
+    // frame counts whose (partial) last tree starts a new line get their own band
+    let lines: &[usize] = if thorough || TREE_FRAMES <= 2048 { &[8, 16, 17, 32] } else { &[8, 16] };
+    for &k in lines {
+        let m = k * TREE_FRAMES;
+        for d in [0usize, 1, 2, 3, HUGE_FRAMES - 1, HUGE_FRAMES, HUGE_FRAMES + 1, TREE_FRAMES - 1] {
+            counts.push(m + d);
+        }
+        counts.push(m - 1);
+        counts.push(m - 2);
+    }
     counts.sort();
     counts.dedup();
     let specs = [ClassingSpec::simple(1), ClassingSpec::movable(2)];
     let col = Mutex::new(Collector::default());
     let evals = AtomicU64::new(0);
     par_for(counts.len(), |i| {
-        let n = counts[i];
+        // the large counts come last: start with them so that they do not form the tail
+        let n = counts[counts.len() - 1 - i];
         let e = c06_one(n, &specs[n % 2], &col);
         evals.fetch_add(e, Ordering::Relaxed);
     });
@@ -867,15 +880,23 @@ pub fn c11(tier: &str, out: Option<&Path>) -> i32 {
     let mut jobs = vec![];
     for spec in &specs {
         for &t in &tree_counts {
-            jobs.push((spec.clone(), t * TREE_FRAMES));
+            jobs.push((spec.clone(), t * TREE_FRAMES, InitMode::FreeAll));
         }
+        // partial last tree (never entirely free: rated differently by multi-class policies)
+        jobs.push((spec.clone(), 2 * TREE_FRAMES + HUGE_FRAMES / 2 + 3, InitMode::FreeAll));
+        // allocate-all: every tree starts allocated with the default class, so frames freed
+        // into it make a partially free tree of (possibly) another class
+        jobs.push((spec.clone(), 3 * TREE_FRAMES, InitMode::AllocAll));
+        jobs.push((spec.clone(), 2 * TREE_FRAMES + HUGE_FRAMES + 7, InitMode::AllocAll));
     }
-    // partial last tree
-    jobs.push((specs[0].clone(), 2 * TREE_FRAMES + HUGE_FRAMES / 2 + 3));
+    // more trees than the neighbourhood of the slot's start tree
+    jobs.push((specs[1].clone(), 16 * TREE_FRAMES, InitMode::AllocAll));
+    jobs.push((specs[1].clone(), 9 * TREE_FRAMES + 100, InitMode::AllocAll));
+    jobs.push((specs[1].clone(), 9 * TREE_FRAMES + 100, InitMode::FreeAll));
     let k_other = if thorough { 5 } else { 3 };
     par_for(jobs.len(), |j| {
-        let (spec, n) = &jobs[j];
-        let cfg = Config::new(*n, spec.clone(), InitMode::FreeAll);
+        let (spec, n, init) = &jobs[jobs.len() - 1 - j];
+        let cfg = Config::new(*n, spec.clone(), *init);
         let sut = Sut::new(&cfg);
         let get = Op::Get {
             order: 0,
@@ -889,12 +910,13 @@ pub fn c11(tier: &str, out: Option<&Path>) -> i32 {
             count += 1;
         }
         let mut ev = count as u64;
-        if count != *n {
+        let expect = if *init == InitMode::AllocAll { 0 } else { *n };
+        if count != expect {
             col.lock().unwrap().add(
                 Violation::new(
                     "C11",
                     "exhaustion through the single slot stopped early",
-                    format!("{}: {count} of {n} frames allocated", cfg.describe()),
+                    format!("{}: {count} of {expect} frames allocated", cfg.describe()),
                 ),
                 || json!({"engine": "dom", "check": "C11", "config": cfg.json(), "history": "fill"}),
             );
